@@ -87,8 +87,53 @@ class Normalizer:
         if isinstance(r, tuple):
             return ("ext", r[1])
         if name in self.fn.module.assigns:
+            c = self._module_constant(self.fn.module, name)
+            if c is not None:
+                return c
             return ("ext", f"{self.fn.module.name}.{name}")
+        if isinstance(r, tuple) and len(r) >= 2 and isinstance(r[1], str) and "." in r[1]:
+            # from <repo module> import NAME of such a constant
+            mod_name, _, attr = r[1].rpartition(".")
+            m2 = self.ctx.p.modules.get(mod_name)
+            if m2 is not None and attr in m2.assigns:
+                c = self._module_constant(m2, attr)
+                if c is not None:
+                    return c
         return V(name)
+
+    def _module_constant(self, module, name: str) -> Optional[Term]:
+        """A module-level `NAME = <literal / lambda / operator getter>` bound exactly once is the value it names (the pinned
+        tree has no module-level assignment at all, so every such name is a constant somebody hoisted)."""
+        stores = [n for n in ast.walk(module.tree) if isinstance(n, ast.Name) and n.id == name and isinstance(n.ctx, ast.Store)]
+        if len(stores) != 1:
+            return None
+        v = module.assigns[name]
+
+        def pure(x) -> bool:
+            if isinstance(x, ast.Constant):
+                return True
+            if isinstance(x, ast.UnaryOp) and isinstance(x.op, (ast.USub, ast.UAdd)):
+                return pure(x.operand)
+            if isinstance(x, (ast.Tuple, ast.List)):
+                return all(pure(y) for y in x.elts)
+            if isinstance(x, ast.Lambda):
+                free = {n.id for n in ast.walk(x.body) if isinstance(n, ast.Name)} - {a.arg for a in x.args.args}
+                return not (free & set(module.assigns))
+            if isinstance(x, ast.Call) and not x.keywords and all(pure(a) for a in x.args):
+                return self._dotted_external(x.func) in ("operator.attrgetter", "attrgetter", "operator.itemgetter", "itemgetter",
+                                                         "operator.methodcaller", "methodcaller", "float", "frozenset")
+            if isinstance(x, ast.BinOp):
+                return pure(x.left) and pure(x.right)
+            return False
+        if not pure(v):
+            return None
+        fn0 = next(iter(module.functions.values()), None) or self.fn
+        sub = Normalizer(self.ctx, fn0 if fn0.module is module else self.fn, {}, {}, self.level, 0, None, None)
+        try:
+            t = sub.norm(v)
+        except AnalysisError:
+            t = None
+        return t
 
     def _is_local(self, name: str) -> bool:
         f = self.fn
@@ -531,6 +576,13 @@ class Normalizer:
                     return r
             return ("app", c.fn.qualname, recv, self._bound(params, e))
         dotted = self._dotted_external(f)
+        if dotted in ("operator.attrgetter", "attrgetter", "operator.methodcaller", "methodcaller", "operator.itemgetter",
+                      "itemgetter") and not e.keywords:
+            lam_ast = self._as_lambda_ast(e)
+            if lam_ast is not None:
+                ast.copy_location(lam_ast, e)
+                ast.fix_missing_locations(lam_ast)
+                return self.norm(lam_ast)
         if dotted is not None:
             canon = self._canonical_iteration(dotted, e)
             if canon is not None:
@@ -548,8 +600,21 @@ class Normalizer:
         concatenation) they abbreviate, so a rule sees one shape whichever way the code is written."""
         if e.keywords or any(isinstance(a, ast.Starred) for a in e.args):
             return None
+        if dotted in ("itertools.filterfalse", "filterfalse") and len(e.args) == 2:
+            f, xs = e.args
+            lam = self._as_lambda_ast(f)
+            if lam is not None:
+                neg = ast.Lambda(args=lam.args, body=ast.UnaryOp(op=ast.Not(), operand=lam.body))
+                call = ast.Call(func=ast.Name(id="filter", ctx=ast.Load()), args=[neg, xs], keywords=[])
+                ast.copy_location(call, e)
+                ast.fix_missing_locations(call)
+                return self._canonical_iteration("filter", call)
+            return None
         if dotted in ("map", "filter") and len(e.args) == 2:
             f, xs = e.args
+            lam_f = self._as_lambda_ast(f) if isinstance(f, ast.Call) else None
+            if lam_f is not None:
+                f = lam_f
             var = f"__it{self.level}"
             if isinstance(f, ast.Lambda) and len(f.args.args) == 1 and not f.args.posonlyargs and not f.args.kwonlyargs \
                     and f.args.vararg is None and not f.args.defaults:
@@ -583,6 +648,43 @@ class Normalizer:
             return ("concat", tuple(self.norm(a) for a in e.args))
         return None
 
+    def _as_lambda_ast(self, f: ast.expr):
+        """operator.attrgetter('a.b') / methodcaller('m', x) / itemgetter(k) / a Name or Attribute / a lambda  ->  ast.Lambda"""
+        def lam(body, name="__op"):
+            return ast.Lambda(args=ast.arguments(posonlyargs=[], args=[ast.arg(arg=name)], kwonlyargs=[], kw_defaults=[],
+                                                 defaults=[]), body=body)
+        if isinstance(f, ast.Lambda):
+            return f if len(f.args.args) == 1 else None
+        if isinstance(f, (ast.Name, ast.Attribute)):
+            return lam(ast.Call(func=f, args=[ast.Name(id="__op", ctx=ast.Load())], keywords=[]))
+        if isinstance(f, ast.Call) and not f.keywords:
+            name = self._dotted_external(f.func)
+            x = ast.Name(id="__op", ctx=ast.Load())
+            if name in ("operator.attrgetter", "attrgetter") and len(f.args) == 1 and isinstance(f.args[0], ast.Constant) \
+                    and isinstance(f.args[0].value, str):
+                body = x
+                for part in f.args[0].value.split("."):
+                    body = ast.Attribute(value=body, attr=part, ctx=ast.Load())
+                return lam(body)
+            if name in ("operator.methodcaller", "methodcaller") and f.args and isinstance(f.args[0], ast.Constant) \
+                    and isinstance(f.args[0].value, str):
+                return lam(ast.Call(func=ast.Attribute(value=x, attr=f.args[0].value, ctx=ast.Load()), args=list(f.args[1:]),
+                                    keywords=[]))
+            if name in ("operator.itemgetter", "itemgetter") and len(f.args) == 1:
+                return lam(ast.Subscript(value=x, slice=f.args[0], ctx=ast.Load()))
+            if name in ("operator.itemgetter", "itemgetter") and len(f.args) > 1 and not any(isinstance(a, ast.Starred) for a in f.args):
+                return lam(ast.Tuple(elts=[ast.Subscript(value=x, slice=a, ctx=ast.Load()) for a in f.args], ctx=ast.Load()))
+            if name in ("operator.attrgetter", "attrgetter") and len(f.args) > 1 and all(
+                    isinstance(a, ast.Constant) and isinstance(a.value, str) for a in f.args):
+                elts = []
+                for a in f.args:
+                    body = x
+                    for part in a.value.split("."):
+                        body = ast.Attribute(value=body, attr=part, ctx=ast.Load())
+                    elts.append(body)
+                return lam(ast.Tuple(elts=elts, ctx=ast.Load()))
+        return None
+
     def scopes_shadow(self, f: ast.expr) -> bool:
         """True when the callee expression is rooted at a bound variable (lambda parameter, comprehension
         target) whose type the flow-insensitive inference cannot be trusted for."""
@@ -593,8 +695,40 @@ class Normalizer:
         out = []
         for p in params:
             if p.name in binding:
-                out.append((p.name, self.norm(binding[p.name])))
+                arg = binding[p.name]
+                # an argument that spells out the parameter's constant default is the same call as leaving it out
+                if isinstance(arg, ast.Constant) and isinstance(p.default, ast.Constant) and arg.value == p.default.value \
+                        and type(arg.value) is type(p.default.value):
+                    continue
+                out.append((p.name, self.norm(arg)))
         if not exact:
+            # f(*args) where args is a local that holds a tuple / list display: the positional call it abbreviates
+            flat = []
+            expandable = not any(kw.arg is None for kw in call.keywords)
+            for a in call.args:
+                if isinstance(a, ast.Starred):
+                    t = self.norm(a.value)
+                    if t[0] in ("tuple", "list") and not any(x[0] == "star" for x in t[1]):
+                        flat.extend(t[1])
+                    else:
+                        expandable = False
+                        break
+                else:
+                    flat.append(self.norm(a))
+            if expandable:
+                pos = [p for p in params if p.kind == "pos"]
+                kwnames = {kw.arg for kw in call.keywords}
+                out = [(k, v) for k, v in out if k in kwnames]
+                head = []
+                for p, t in zip(pos, flat):
+                    if isinstance(p.default, ast.Constant) and t == C(p.default.value):
+                        continue
+                    head.append((p.name, t))
+                out = head + out
+                for kw in call.keywords:
+                    if kw.arg is not None and kw.arg not in {p.name for p in params}:
+                        out.append((kw.arg, self.norm(kw.value)))
+                return tuple(out)
             out.append(("*", ("tuple", tuple(self.norm(a) for a in call.args))))
         for kw in call.keywords:
             if kw.arg is not None and kw.arg not in {p.name for p in params}:
@@ -667,6 +801,23 @@ class Normalizer:
                 continue
             if isinstance(s, ast.Return):
                 return self.norm(s.value) if s.value is not None else T.NONE
+            if isinstance(s, ast.Expr) and isinstance(s.value, ast.Call) and isinstance(s.value.func, ast.Attribute) \
+                    and isinstance(s.value.func.value, ast.Name) and s.value.func.value.id in self.env \
+                    and s.value.func.attr in ("sort", "reverse", "append", "extend"):
+                call = s.value
+                name = call.func.value.id
+                cur = self.env[name]
+                if call.func.attr == "sort" and not call.args:
+                    kwargs = tuple((k.arg, self.norm(k.value)) for k in call.keywords if k.arg is not None)
+                    self.env[name] = T.mk_call("sorted", [cur], kwargs)
+                    continue
+                if call.func.attr == "reverse" and not call.args and not call.keywords:
+                    self.env[name] = ("slice", cur, T.NONE, T.NONE, C(-1))
+                    continue
+                if call.func.attr == "append" and len(call.args) == 1 and cur[0] == "list":
+                    self.env[name] = ("list", cur[1] + (self.norm(call.args[0]),))
+                    continue
+                return None
             if isinstance(s, ast.Expr) and isinstance(s.value, ast.YieldFrom) and i == len(stmts) - 1:
                 return self.norm(s.value.value)          # a generator that only delegates: its value is what it delegates to
             if isinstance(s, ast.If):
